@@ -30,7 +30,21 @@ def gen_case(rng, thorough):
         r = rng.random()
         loc = rng.choice(locs)
         rid = rng.choice(RIDS)
-        if r < 0.22: ops.append({"op": "addRule", "loc": loc, "id": rid, "rule": mkrule(rng, rng.choice(keys))})
+        if r < 0.22:
+            ops.append({"op": "addRule", "loc": loc, "id": rid, "rule": mkrule(rng, rng.choice(keys))})
+            z = rng.random()
+            if z < 0.10:
+                # a replacement the state rejects (the index cannot sort an array of mixed types): the rule it would have replaced lives on
+                bad = {"when": {"pattern": {rng.choice(keys): "?x", "wants": [1, "x"]}}, "action": action(rng, 0)}
+                ops.append({"op": "addRule", "loc": loc, "id": rid, "rule": bad})
+                ops.append({"op": "event", "loc": "a", "event": {rng.choice(keys): 1}})
+            elif z < 0.18:
+                # the `disabled` flag written as a plain property fact (no deleteWith, as older storage content has it): the rule's
+                # removal takes the flag with it, so a rule added again under that id is enabled
+                ops.append({"op": "addFact", "loc": loc, "id": "", "fact": {"id": rid, "!disabled": True}})
+                if rng.random() < 0.7:
+                    ops += [{"op": "remRule", "loc": loc, "id": rid}, {"op": "addRule", "loc": loc, "id": rid, "rule": mkrule(rng, "go")},
+                            {"op": "ruleEnabled", "loc": loc, "id": rid}, {"op": "event", "loc": loc, "event": {"go": 1}}]
         elif r < 0.32: ops.append({"op": "remRule", "loc": loc, "id": rid})
         elif r < 0.46: ops.append({"op": "enableRule", "loc": "a" if rng.random() < 0.7 else loc, "id": rid, "enable": rng.random() < 0.45})
         elif r < 0.52: ops.append({"op": "ruleEnabled", "loc": "a", "id": rid})
@@ -83,4 +97,5 @@ def main():
     proof_verdict(ck, pr)
     ck.finish()
 
-main()
+if __name__ == "__main__":
+    main()
